@@ -20,6 +20,7 @@ type Env struct {
 	old      *State
 	inOld    bool
 	bound    map[string]Val
+	alias    map[string]string // contract identifier -> local of the code it is bound to (rename-tolerant binding, rename.go)
 }
 
 func (g *Gen) newEnv(cur, old *State) *Env {
@@ -193,6 +194,9 @@ func (e *Env) ident(name string) Val {
 	if sig, ok := g.w.specFuncs[name]; ok && len(sig.Args) == 0 {
 		g.useTheory(sig.Module)
 		return Val{Sort: sig.Res, Term: name}
+	}
+	if a, ok := e.alias[name]; ok && a != name {
+		return e.ident(a)
 	}
 	g.fail("unknown identifier %q in spec", name)
 	return Val{}
